@@ -273,6 +273,61 @@ class CharTable(Stream):
         return replies[0]
 
 
+class PrintedDocument(Stream):
+    """The printer as the quoting side: a definition whose single value word is the string, printed by
+    definition.as_str() (the writer behind scope.show / as_str / format output), followed by another definition, parsed
+    back.  Blanks before an embedded newline, and long strings with escapes anywhere, come back verbatim.  Oracle only."""
+    name = "printed_document"
+    cluster = "Tok"
+
+    def __init__(self, ctx):
+        super().__init__(ctx)
+        self.fp = import_freephil()
+        from freephil import tokenizer
+        self.tk = tokenizer
+
+    def cases(self, rng, tier):
+        small = ["'", '"', "\\", "\n", " ", "\t", "a", "#", ";"]
+        for n in range(4 if tier == "quick" else 5):
+            for t in itertools.product(small, repeat=n):
+                yield [rng.choice(sorted(STYLES)), "".join(t)]
+        tails = ["\\", "\\'", '"', "\\\\", "'\\", " \n", "\t\nx", ""]
+        for k in range(0, 200, 1 if tier != "quick" else 3):
+            yield [rng.choice(sorted(STYLES)), "x" * k + rng.choice(tails)]
+        for _ in range(300 if tier == "quick" else 4000):
+            yield [rng.choice(sorted(STYLES)), "".join(rng.choice(["x", "y ", "\\", "'", '"', " \n", "\t", "ab"]) for _ in range(rng.randint(30, 140)))]
+
+    def impl(self, case):
+        q, s = case
+        d = self.fp.definition(name="a", words=[self.tk.word(value=s, quote_token=STYLES[q])])
+        out = []
+        for width in (79, 40):
+            text = d.as_str(print_width=width) + "b = 1\n"
+            try:
+                t = self.fp.parse(text)
+                out.append(["ok", [[o.name, [[w.value, w.quote_token] for w in o.words]] for o in t.objects]])
+            except Exception as e:  # noqa
+                out.append(["err", exc_class(e), text[:120]])
+        return out
+
+    def requests(self, case, o):
+        return []
+
+    def model(self, case, replies, o):
+        return o
+
+    def prop(self, case, o):
+        q, s = case
+        want = ["ok", [["a", [[s, STYLES[q]]]], ["b", [["1", None]]]]]
+        for w, x in zip((79, 40), o):
+            if x != want:
+                return "printed at width %d and parsed back, the value %r (style %s) reads %r" % (w, s, STYLES[q], x)
+        return None
+
+    def tag(self, case, o):
+        return "ok" if self.prop(case, o) is None else "fail"
+
+
 class BeyondLatin1(Stream):
     """Strings with characters beyond Latin-1 (the model's alphabet ends at code point 255): decomposed / compatibility forms,
     combining marks, CJK, astral characters, zero-width and bidi characters - quoted, then tokenized stand-alone and inside
@@ -327,7 +382,7 @@ class BeyondLatin1(Stream):
 
 SPEC = {
     "clusters": ["Tok", "Parse"],
-    "streams": [CharTable, ValueLiteral, InDocument, InDocumentParse, BeyondLatin1],
+    "streams": [CharTable, ValueLiteral, InDocument, InDocumentParse, PrintedDocument, BeyondLatin1],
     "rule": "exhaustive strings up to the length bound over the 12-class alphabet of the property x 4 quote styles "
             "(value literal; in-document with 5 tails), plus seeded random strings to length 300 over the class alphabet "
             "and over all 256 code points; distinct = distinct (style, string[, tail]); non-trivial = non-empty string",
